@@ -104,3 +104,60 @@ def ttl_extras():
     if not setups:
         return None, None
     return (lambda rng, k, ttl: rng.choice(setups)(rng, k, ttl)), (lambda rng, k, keys: rng.choice(probes)(rng, k, keys))
+
+
+# ---------------------------------------------------------------------------------------------------------------------------------------
+# "a refused command changes nothing": multi-key / multi-argument commands whose LAST part is what gets them refused
+# (a wrong-typed source behind good ones, an invalid score/pair behind valid ones), with the destination among the sources,
+# followed by a full dump — a partial update before the error shows in the dump.
+_MK = {
+    "set": [[b"SADD", b"K", b"a"], [b"SADD", b"K", b"b", b"c"], [b"SADD", b"K", b"a", b"d", b""]],
+    "list": [[b"RPUSH", b"K", b"a", b"b"], [b"RPUSH", b"K", b""]],
+    "hash": [[b"HSET", b"K", b"f", b"1"]],
+    "zset": [[b"ZADD", b"K", b"1", b"a", b"2", b"b"]],
+    "str": [[b"SET", b"K", b"v"]],
+    "stream": [[b"XADD", b"K", b"1-1", b"f", b"v"]],
+}
+
+
+def refused_changes_nothing(rng, n):
+    from . import execgen
+    lines = []
+    for _ in range(n):
+        names = [b"acc", b"s1", b"s2", b"w", b"dst"]
+        lines.append("R")
+        fam = rng.choice(["set", "set", "set", "list", "zset", "hash"])
+        for k in (b"acc", b"s1", b"s2"):
+            if rng.random() < 0.85:
+                c = rng.choice(_MK[fam])
+                lines.append(execgen.render([k if a == b"K" else a for a in c], [k]))
+        wt = rng.choice([t for t in _MK if t != fam])
+        lines.append(execgen.render([b"w" if a == b"K" else a for a in rng.choice(_MK[wt])], [b"w"]))
+        if rng.random() < 0.3:
+            lines.append(execgen.render([b"EXPIRE", b"acc", b"1000"], [b"acc"]))
+        if fam == "set":
+            op = rng.choice([b"SUNIONSTORE", b"SINTERSTORE", b"SDIFFSTORE", b"sunionstore", b"SMOVE", b"SUNION", b"SINTER", b"SDIFF"])
+            dst = rng.choice([b"acc", b"acc", b"dst", b"s1"])
+            if op == b"SMOVE":
+                argv = [op] + rng.choice([[b"s1", b"w", b"a"], [b"w", b"acc", b"a"], [b"acc", b"w", b"zz"]])
+            else:
+                srcs = rng.sample([b"acc", b"s1", b"s2"], rng.randint(1, 3))
+                if rng.random() < 0.7 and dst not in srcs:
+                    srcs.insert(rng.randint(0, len(srcs)), dst)
+                pos = rng.choice([len(srcs), len(srcs), rng.randint(0, len(srcs))])
+                srcs.insert(pos, b"w")
+                argv = ([op, dst] if op.upper().endswith(b"STORE") else [op]) + srcs
+        elif fam == "list":
+            argv = rng.choice([[b"LMOVE", b"acc", b"w", b"LEFT", b"RIGHT"], [b"LMOVE", b"w", b"acc", b"LEFT", b"LEFT"], [b"RPOPLPUSH", b"acc", b"w"],
+                               [b"LMOVE", b"acc", b"s1", b"LEFT", b"MIDDLE"], [b"BLPOP", b"w", b"acc", b"0.01"], [b"LSET", b"acc", b"5", b"x"]])
+        elif fam == "zset":
+            argv = rng.choice([[b"ZADD", b"acc", b"5", b"n1", b"notanumber", b"n2"], [b"ZADD", b"acc", b"5", b"n1", b"6"],
+                               [b"ZADD", b"acc", b"NX", b"XX", b"5", b"n1"], [b"ZADD", b"acc", b"INCR", b"5", b"n1", b"6", b"n2"],
+                               [b"ZADD", b"acc", b"5", b"n1", b"nan", b"n2"], [b"ZADD", b"w", b"5", b"n1"]])
+        else:
+            argv = rng.choice([[b"HSET", b"acc", b"g", b"1", b"h"], [b"HINCRBY", b"acc", b"f", b"9223372036854775807"], [b"HINCRBYFLOAT", b"acc", b"f", b"x"],
+                               [b"HSET", b"w", b"g", b"1"], [b"HINCRBY", b"acc", b"g", b"1.5"], [b"HSETNX", b"w", b"g", b"1"]])
+        lines.append(execgen.render(argv, names, full=True))
+        if rng.random() < 0.5:
+            lines.append(execgen.render([b"TTL", b"acc"], names, full=True))
+    return lines
